@@ -19,6 +19,11 @@ RESOLVABLE = ["X", "Y", "Z", "SNOT", "SQRTNOT", "PHASEGATE", "RX", "RY", "RZ", "
               "ISWAP", "SQRTSWAP", "SQRTISWAP", "TOFFOLI", "FREDKIN", "GLOBALPHASE"]
 OTHERS = ["BERKELEY", "SWAPalpha", "CPHASE", "CRX", "S", "T", "CS", "CZ", "IDLE", "CT", "CY"]
 PARAM = decomp.PARAMETRIC
+# other spellings the gate classes accept (GATE_CLASS_MAP), not names of the model alphabet: H has a rule
+# (`_gate_H = _gate_SNOT`, Gen.ruleAlias), the others have none
+ALIASES = ["H"]
+ALIAS_OTHERS = ["CX", "iSWAP", "SWAPALPHA"]
+PARAM_ALL = PARAM | {"SWAPALPHA"}
 B2 = ["CNOT", "CSIGN", "ISWAP", "SQRTSWAP", "SQRTISWAP"]
 R1 = ["RX", "RY", "RZ"]
 
@@ -36,7 +41,8 @@ def valid_bases():
 
 
 def other_bases():
-    return [("str", "RX"), ("str", "FOO"), ("str", "TOFFOLI"), ("list", ["CNOT", "RX"]), ("list", ["RZ", "ISWAP"]),
+    return [("list", ["CNOT", "RX", "RY", "RZ", "CX", "H"]), ("list", ["iSWAP", "SWAPALPHA", "ISWAP", "RX", "RZ"]),
+            ("str", "RX"), ("str", "FOO"), ("str", "TOFFOLI"), ("list", ["CNOT", "RX"]), ("list", ["RZ", "ISWAP"]),
             ("list", ["CNOT", "RX", "IDLE"]), ("list", ["RX", "RY"]), ("list", ["CSIGN", "ISWAP", "RY", "RZ"]),
             ("list", []), ("list", ["FOO", "CNOT"]), ("list", ["T", "CNOT", "RX", "RY"])]
 
@@ -108,7 +114,7 @@ class G:
         return f"{self.name}/{d(self.t)}/{d(self.c)}/{a}"
 
     def value(self):
-        if self.name not in PARAM:
+        if self.name not in PARAM_ALL:
             return None
         return self.val if self.sym is not None else self.p8 * PI8
 
@@ -120,6 +126,8 @@ class G:
 
 
 def shape(name):
+    if name in decomp.ALIAS_SHAPE:
+        return decomp.ALIAS_SHAPE[name]
     return decomp.SHAPE[name] if name in decomp.SHAPE else (0, 1)
 
 
@@ -147,7 +155,7 @@ def random_gate(rng, N, names, idx):
         return None
     qs = rng.sample(range(N), nc + nt)
     t, c = qs[:nt], qs[nt:]
-    if name in PARAM:
+    if name in PARAM_ALL:
         if rng.random() < 0.6:
             return G(name, t, c, sym=idx, val=rng.choice([rng.uniform(-7, 7), 0.0, 1e-9, -math.pi, 2 * math.pi, 9.5]))
         return G(name, t, c, p8=2 * rng.randint(-9, 9))
@@ -497,6 +505,8 @@ class C03(PropertyCheck):
         "QipVerif.C03.resolve_basis_perm",
         "QipVerif.C03.resolve_labels_true",
         "QipVerif.C03.rules_label_their_angles",
+        "QipVerif.C03.alias_resolves_like_canonical",
+        "QipVerif.C03.alias_same_class",
     ]
     technique = ("Lean 4: rule tables (gates, qubit selectors, angles, labels) regenerated from the source, each fixed-angle rule's "
                  "exact unitary identity decided by the kernel in Z[zeta16][1/2] (decide +kernel); parametric rules proved over C "
@@ -552,6 +562,9 @@ class C03(PropertyCheck):
         import os
         from vlib.paths import LEAN
         decomp.write_if_changed(os.path.join(LEAN, "QipVerif", "Gen", "DecompRulesAll.lean"), agg)
+        # alias_same_class is a theorem about C09's constructor table: keep it current for the tree under check
+        from translate import gatector
+        gatector.regenerate()
         _VAR["v"] = None
         try:
             _VAR["v"] = source_variant()
@@ -564,7 +577,7 @@ class C03(PropertyCheck):
                     "a string basis is %s (fixes/C03-3 %s)"
                     % ((("keeps", "applied") if kc else ("drops", "not applied"))
                        + (("one name", "applied") if ex else ("searched for substrings", "not applied"))))
-        return ["DecompTables.lean", "DecompLabels.lean"] + mods
+        return ["DecompTables.lean", "DecompLabels.lean", "DecompAlias.lean", "DecompVariant.lean", "GateCtor.lean"] + mods
 
     # ---------------------------------------------------------------------------------
     def _run_cases(self, ctx, res, cases, stream="main"):
@@ -615,10 +628,10 @@ class C03(PropertyCheck):
         # classical condition + a style on the gate
         cases, cases2 = [], []
         N = 3
-        for name in RESOLVABLE + OTHERS:
-            nc, nt = decomp.SHAPE[name]
+        for name in RESOLVABLE + OTHERS + ALIASES + ALIAS_OTHERS:
+            nc, nt = shape(name)
             for j, qs in enumerate(itertools.permutations(range(N), nc + nt)):
-                mk = lambda **kw: (G(name, qs[:nt], qs[nt:], sym=0, val=0.7390851332151607, **kw) if name in PARAM
+                mk = lambda **kw: (G(name, qs[:nt], qs[nt:], sym=0, val=0.7390851332151607, **kw) if name in PARAM_ALL
                                    else G(name, qs[:nt], qs[nt:], **kw))
                 cond = [([0], 1), ([1, 0], 2), ([0, 2], 0)][j % 3]
                 for b in bases:
@@ -640,7 +653,7 @@ class C03(PropertyCheck):
             N = rng.randint(1, 5)
             L = rng.randint(0, 8)
             ncb = rng.choice([0, 1, 2, 3])
-            names = RESOLVABLE if rng.random() < 0.8 else RESOLVABLE + OTHERS
+            names = RESOLVABLE + ALIASES if rng.random() < 0.8 else RESOLVABLE + OTHERS + ALIASES + ALIAS_OTHERS
             gs = [decorate(rng, g, i, ncb) for i, g in enumerate(random_gate(rng, N, names, i) for i in range(L))
                   if g is not None]
             b = rng.choice(valid_bases()) if rng.random() < 0.85 else rng.choice(other_bases())
@@ -711,7 +724,7 @@ class C03(PropertyCheck):
                 return True, "a circuit with a measurement was resolved (resolve_gates documents a refusal)"
             return False, f"circuit with a measurement: {ist}"
         b2 = [n for n in names if n in B2]
-        inexpressible = [g.name for g in gs if (g.name not in RESOLVABLE and g.name not in users) or
+        inexpressible = [g.name for g in gs if (g.name not in RESOLVABLE + ALIASES and g.name not in users) or
                          (g.name in ("SQRTSWAP", "SQRTISWAP") and g.name not in b2)]
         if inexpressible:
             if ist == "ok":
@@ -764,7 +777,7 @@ class C03(PropertyCheck):
         kc, ex = variant()
         N = rng.randint(1, 4)
         L = rng.randint(1, 5)
-        gs = [g for g in (random_gate(rng, N, RESOLVABLE, i) for i in range(L)) if g is not None]
+        gs = [g for g in (random_gate(rng, N, RESOLVABLE + ALIASES, i) for i in range(L)) if g is not None]
         if rng.random() < 0.35 and N <= 3:
             # labels always; classical conditions while the source hands them on (otherwise: recorded class C03-2)
             ncb = rng.choice([1, 2]) if kc else 0
@@ -776,11 +789,11 @@ class C03(PropertyCheck):
         """single gates of every name x every valid basis: plain, classically controlled (if the source hands
         conditions on), and the gates without a rule in string bases (if a string basis is one name)"""
         kc, ex = variant()
-        for name in RESOLVABLE:
-            nc, nt = decomp.SHAPE[name]
+        for name in RESOLVABLE + ALIASES:
+            nc, nt = shape(name)
             N = max(1, nc + nt)
             for b in valid_bases():
-                g = G(name, list(range(nt)), list(range(nt, nt + nc)), sym=0 if name in PARAM else None, val=0.739)
+                g = G(name, list(range(nt)), list(range(nt, nt + nc)), sym=0 if name in PARAM_ALL else None, val=0.739)
                 yield {"N": N, "gates": [g.wit()], "basis": list(b)}
                 if kc:
                     g.cond = ([0], 1)
@@ -791,12 +804,12 @@ class C03(PropertyCheck):
                     if b[0] == "list":
                         yield {"N": 2, "gates": [G("SNOT", [1], []).wit(), G(un, [0], []).wit(), G("CNOT", [0], [1]).wit()],
                                "basis": ["list", list(b[1]) + [un]]}
-        for name in OTHERS:
-            nc, nt = decomp.SHAPE[name]
+        for name in OTHERS + ALIAS_OTHERS:
+            nc, nt = shape(name)
             for b in valid_bases():
                 if b[0] == "str" and not ex:
                     continue                    # recorded class C03-3
-                g = G(name, list(range(nt)), list(range(nt, nt + nc)), sym=0 if name in PARAM else None, val=0.739)
+                g = G(name, list(range(nt)), list(range(nt, nt + nc)), sym=0 if name in PARAM_ALL else None, val=0.739)
                 yield {"N": max(1, nc + nt), "gates": [g.wit()], "basis": list(b)}
 
     def oracle_search(self, ctx, budget_s):
